@@ -56,11 +56,12 @@ theorem opNewEntity_ckeep (run : ProbeRunner) (p : Path) {w : World} {fl : List 
 
 theorem opAdd_ckeep (run : ProbeRunner) (p : Path) {w : World} {fl : List Nat} (h : TInv w fl)
     (hl : w.isLocked = false) (hno : ∀ (evt : Nat), w.obs.hasObservers evt = false) {e : Ent}
-    (h2 : 2 ≤ e.id) (hnf : e.id ∉ fl) (ha : w.alive e = true) {ids : List Comp}
+    (h2 : 2 ≤ e.id) (hnf : e.id ∉ fl) (ha : w.alive e = true)
+    (hsl : e.id < w.pool.ents.length) {ids : List Comp}
     {vals : List (Comp × Val)} {rels : List RelID}
     (hreg : ∀ (c : Comp), c ∈ ids → c < w.kinds.length)
     {w' : World} (hok : opAdd run p e ids vals rels w = .ok () w') : CKeep w w' := by
-  obtain ⟨oldT, row, he, htm, _⟩ := h.link.live_entry h2 hnf ha
+  obtain ⟨oldT, row, he, htm, _⟩ := h.link.live_entry h2 hnf ha hsl
   have hix := index_of_get he
   have hI := h.link.idx
   obtain ⟨hT, hrow, hid⟩ := hI.indexed he htm
@@ -125,11 +126,12 @@ theorem opAdd_ckeep (run : ProbeRunner) (p : Path) {w : World} {fl : List Nat} (
 
 theorem setRelationsCore_ckeep (run : ProbeRunner) {w : World} {fl : List Nat} (h : TInv w fl)
     (hl : w.isLocked = false) (hno : ∀ (evt : Nat), w.obs.hasObservers evt = false) {e : Ent}
-    (h2 : 2 ≤ e.id) (hnf : e.id ∉ fl) (ha : w.alive e = true) {rels : List RelID}
+    (h2 : 2 ≤ e.id) (hnf : e.id ∉ fl) (ha : w.alive e = true)
+    (hsl : e.id < w.pool.ents.length) {rels : List RelID}
     (hne : rels.isEmpty = false) (hnd : (rels.map (·.comp)).Nodup)
     (hhas : ∀ (r : RelID), r ∈ rels → (targetOf w e.id r.comp).isSome = true)
     {w' : World} (hok : setRelationsCore run e rels w = .ok () w') : CKeep w w' := by
-  obtain ⟨oldT, row, he, htm, _⟩ := h.link.live_entry h2 hnf ha
+  obtain ⟨oldT, row, he, htm, _⟩ := h.link.live_entry h2 hnf ha hsl
   have hix := index_of_get he
   have hI := h.link.idx
   obtain ⟨hT, hrow, hid⟩ := hI.indexed he htm
@@ -209,7 +211,8 @@ theorem setRelationsCore_ckeep (run : ProbeRunner) {w : World} {fl : List Nat} (
 
 theorem opSetRelations_ckeep (run : ProbeRunner) (p : Path) {w : World} {fl : List Nat}
     (h : TInv w fl) (hl : w.isLocked = false) (hno : ∀ (evt : Nat), w.obs.hasObservers evt = false)
-    {e : Ent} (h2 : 2 ≤ e.id) (hnf : e.id ∉ fl) (ha : w.alive e = true) {mapperIds : List Comp}
+    {e : Ent} (h2 : 2 ≤ e.id) (hnf : e.id ∉ fl) (ha : w.alive e = true)
+    (hsl : e.id < w.pool.ents.length) {mapperIds : List Comp}
     {rels : List RelID} (hne : rels.isEmpty = false) (hnd : (rels.map (·.comp)).Nodup)
     (hhas : ∀ (r : RelID), r ∈ rels → (targetOf w e.id r.comp).isSome = true)
     {w' : World} (hok : opSetRelations run p e mapperIds rels w = .ok () w') : CKeep w w' := by
@@ -218,7 +221,7 @@ theorem opSetRelations_ckeep (run : ProbeRunner) (p : Path) {w : World} {fl : Li
     · exact h1
     · simp [opSetRelations, bind, M.bind, h1] at hok
   simp only [opSetRelations, bind, M.bind, hpre] at hok
-  exact setRelationsCore_ckeep run h hl hno h2 hnf ha hne hnd hhas hok
+  exact setRelationsCore_ckeep run h hl hno h2 hnf ha hsl hne hnd hhas hok
 
 /-! ### `Set` -/
 
@@ -244,13 +247,14 @@ theorem opSet_keep (run : ProbeRunner) {w : World} {e : Ent} {ids : List Comp}
     row moves -/
 theorem opRemove_keep (run : ProbeRunner) (p : Path) {w : World} {fl : List Nat} (h : TInv w fl)
     (hl : w.isLocked = false) (hno : ∀ (evt : Nat), w.obs.hasObservers evt = false) {e : Ent}
-    (h2 : 2 ≤ e.id) (hnf : e.id ∉ fl) (ha : w.alive e = true) {ids : List Comp}
+    (h2 : 2 ≤ e.id) (hnf : e.id ∉ fl) (ha : w.alive e = true)
+    (hsl : e.id < w.pool.ents.length) {ids : List Comp}
     (hne : ids ≠ []) (hnd : ids.Nodup)
     (hpres : ∀ (c : Comp), c ∈ ids → (w.maskOf e).get c = true)
     (hrows : w.entities.length + 1 < 2 ^ 32)
     {w' : World} (hok : opRemove run p e ids w = .ok () w') :
     QKeep w w' ∧ CKeep w w' ∧ w'.locks = w.locks ∧ w'.kinds = w.kinds := by
-  obtain ⟨oldT, row, he, htm, _⟩ := h.link.live_entry h2 hnf ha
+  obtain ⟨oldT, row, he, htm, _⟩ := h.link.live_entry h2 hnf ha hsl
   have hix := index_of_get he
   have hI := h.link.idx
   obtain ⟨hT, hrow, hid⟩ := hI.indexed he htm
